@@ -191,10 +191,23 @@ class Gen:
 
     def make_bits_type(self):
         bits = self.rng.choice([8, 8, 16, 16, 24, 32] + ([64, 40] if "wide" in self.f else []))
+        if "bits_array" in self.f and bits >= 16 and self.rng.random() < 0.6:
+            # an array of small integers inside the bits type, then ordinary members
+            ew = self.rng.choice([1, 2, 3, 4])
+            n = self.rng.randint(2, min(6, (bits - 4) // ew))
+            arr = D.Field(self.names.snake(), D.Const(0), D.Const(ew * n),
+                          D.ArrayT(D.Scalar(self.rng.choice(["UInt", "UInt", "Int"]) if ew > 1 else "UInt", ew), ew, D.Const(n) if self.rng.random() < 0.6 else None))
+            rest = self.bits_members(bits - ew * n, exact=True)
+            for m in rest:
+                m.start = D.Const(m.start.v + ew * n)
+            sd = D.StructDef(self.names.camel(), "bits", fields=[arr] + rest)
+            self.structs.append(sd)
+            self.bits_types.append((sd, bits))
+            return sd
         sd = D.StructDef(self.names.camel(), "bits", fields=self.bits_members(bits, exact=True))
         # make the declared size exact: the last member ends at `bits` or padding is implied by the field size
         if "virtuals" in self.f and self.rng.random() < 0.5:
-            ints = [m for m in sd.fields if m.type.kind in ("UInt", "Int") and m.type.bits <= 16]
+            ints = [m for m in sd.fields if isinstance(m.type, D.Scalar) and m.type.kind in ("UInt", "Int") and m.type.bits <= 16]
             if ints:
                 m = self.rng.choice(ints)
                 sd.fields.append(D.Field(self.names.snake(), expr=D.Bin("+", D.Ref(m.name), D.Const(self.rng.randint(1, 9)))))
@@ -433,7 +446,7 @@ class Gen:
                 fields.append(f)
                 if cond is None:
                     for mem in bt.fields:
-                        if not mem.is_virtual and mem.type.kind == "UInt" and mem.type.bits <= 4 and mem.requires is None:
+                        if not mem.is_virtual and isinstance(mem.type, D.Scalar) and mem.type.kind == "UInt" and mem.type.bits <= 4 and mem.requires is None:
                             if rng.random() < 0.5:
                                 ints.append(IntSrc(D.Ref(f.name, mem.name), 0, (1 << mem.type.bits) - 1))
             elif kind == "struct_field":
